@@ -1,7 +1,7 @@
 """Streams driven from Python: generated CdE exports / simple instances / malformed documents / output
 faults, run through the real release binary (feature off) or through the in-process runner of the
 harness (`vharness cdedb-read`). Every random choice derives from random.Random(seed)."""
-import json, os, random, subprocess, copy, struct, re, shutil, stat, tempfile, hashlib
+import json, math, os, random, subprocess, copy, struct, re, shutil, stat, tempfile, hashlib
 
 STREAMS = {"cdedb-read", "cdedb-pairs", "e2e-cde", "cli-simple", "cli-malformed", "cli-fault", "cli-main", "simple-read"}
 
@@ -657,6 +657,18 @@ def stream_cdedb_read(seed, tier, workdir, stream):
     return cases
 
 
+def f32round(x):
+    """the f32 nearest to the double x (Rust `as f32`: overflow gives an infinity)"""
+    try:
+        return struct.unpack("f", struct.pack("f", x))[0]
+    except OverflowError:
+        return math.copysign(math.inf, x)
+
+
+def f32bits(x):
+    return 0x7fc00000 if x != x else struct.unpack("I", struct.pack("f", x))[0]
+
+
 def lines_cdedb_read(cases, workdir, stream):
     res = run_reader(workdir, [(c["doc"], c["opts"]) for c in cases])
     out = []
@@ -724,6 +736,35 @@ def lines_cdedb_read(cases, workdir, stream):
                             probs.append(f"course {cid}: expected [min,max,fixed,#hidden] {want}, reader {got}")
                     out.append(line("direct", ["C11"], ok=not probs, what="; ".join(probs[:3]) or "places of ignored registrations reserved", case=i, stream=stream,
                                     nontrivial=any(len(x[8]) > 0 for x in ok["courses"])))
+                # size limits (defaults 0 and 25) and the configured room fields, read off the export independently;
+                # with --ignore-assigned the places and the room share of the hidden people are accounted for
+                t = str(c["info"]["sel_track"]); sp = str(c["info"]["sel_part"])
+                fprobs = []
+                for ci, cid in enumerate(kept):
+                    if ci >= len(ok["courses"]):
+                        break
+                    cd = next(v for k, v in c["doc"]["courses"].items() if int(k) == cid)
+                    hidden = 0; att = 0
+                    if c["opts"]["ia"]:
+                        for rid, reg in c["doc"]["registrations"].items():
+                            pp = reg["parts"].get(sp)
+                            if isinstance(pp, dict) and pp.get("status") == 2 and reg["tracks"][t]["course_id"] == cid:
+                                hidden += 1
+                                att += reg["tracks"][t]["course_instructor"] != cid
+                    mx = cd.get("max_size") if isinstance(cd.get("max_size"), int) else 25
+                    mn = cd.get("min_size") if isinstance(cd.get("min_size"), int) else 0
+
+                    def fld(name, dflt):
+                        v = cd.get("fields", {}).get(name) if name is not None else None
+                        return float(v) if isinstance(v, (int, float)) and not isinstance(v, bool) else dflt
+                    fac = f32round(fld(c["opts"]["rff"], 1.0))
+                    off = f32round(f32round(fld(c["opts"]["rof"], 0.0)) + f32round(float(hidden) * fac))
+                    want = [max(0, mn - att), max(0, mx - att), f32bits(fac), f32bits(off)]
+                    got = [ok["courses"][ci][2], ok["courses"][ci][3], ok["courses"][ci][5], ok["courses"][ci][6]]
+                    if want != got:
+                        fprobs.append(f"course {cid}: expected [min,max,factor bits,offset bits] {want} (factor {fac}, offset {off}), reader {got}")
+                out.append(line("direct", ["C12"] + (["C11"] if c["opts"]["ia"] else []), ok=not fprobs,
+                                what="; ".join(fprobs[:3]) or "size limits and room factor / offset as the export gives them", case=i, stream=stream))
                 out.append(line("direct", ["C12"], ok=good, what=f"declarative problem: courses {kept} participants {exp_parts[:6]} vs reader courses {got_courses} participants {got_parts[:6]}", case=i, stream=stream))
     return out
 
